@@ -231,7 +231,7 @@ def apply_rename(text, a, b, counts):
         pat = pat + r'(?![\w])'
     out, last, cnt = [], 0, 0
     for mm in re.finditer(pat, text):
-        if m[mm.start()] != rs.CODE:
+        if m[mm.start()] != rs.CODE and not (a[0] == '"' and m[mm.start()] != rs.COMMENT):
             continue
         out.append(text[last:mm.start()])
         out.append(b)
